@@ -174,8 +174,15 @@ fn observe(ctx: &Ctx, s: &SATSolver, decisions: Vec<(usize, bool)>, prev: Option
 pub fn run_case(case: &Case, st: &mut Stats) -> CaseResult {
     let cnf: Cnf = case.cnf.to_rsdd();
     let n = cnf.num_vars();
-    let clauses: Vec<Vec<(usize, bool)>> = case
-        .cnf
+    // what is done with a CNF takes the Cnf object as its input (whether Cnf::new kept the generating list is
+    // C15's concern): the clause list is read back through clauses()
+    let seen = CnfCase::read_back(&cnf);
+    st.flag("cnf_object_differs_from_generating_list(C15's concern)", seen.clauses != case.cnf.clauses);
+    if n > crate::tt::NV || seen.num_vars() > n {
+        return Ok(());
+    }
+
+    let clauses: Vec<Vec<(usize, bool)>> = seen
         .clauses
         .iter()
         .map(|c| {
@@ -189,7 +196,7 @@ pub fn run_case(case: &Case, st: &mut Stats) -> CaseResult {
         n,
         clauses,
         taut,
-        base: case.cnf.tt(),
+        base: seen.tt(),
         occurrences,
     };
     let solver = SATSolver::new(cnf.clone());
@@ -199,7 +206,7 @@ pub fn run_case(case: &Case, st: &mut Stats) -> CaseResult {
             ctx.base.is_false(),
             "C09/unsat-reported-but-satisfiable",
             "SATSolver::new reported UNSAT but the CNF {:?} has a model",
-            case.cnf.clauses
+            seen.clauses
         );
         st.bump("unsat_at_construction");
         return Ok(());
@@ -208,7 +215,10 @@ pub fn run_case(case: &Case, st: &mut Stats) -> CaseResult {
     check_state(&ctx, &s, &stack[0], "after construction")?;
     // (g) all visited states: hash -> residual
     let mut by_hash: BTreeMap<u128, (Residual, Vec<(usize, bool)>)> = BTreeMap::new();
-    let hash_exact = ctx.occurrences <= 26; // product of the first 26 primes < 2^128
+    // the property states no size limit for the solver's hash: beyond 26 occurrences the 128-bit product can wrap
+    // around, and an equal hash for different residuals would then need a coincidence on 127 bits, which
+    // would itself be a violation of the property as stated
+    let hash_exact = true;
     if hash_exact {
         by_hash.insert(stack[0].hash, (residual(&ctx, &stack[0].model), vec![]));
     }
@@ -221,6 +231,14 @@ pub fn run_case(case: &Case, st: &mut Stats) -> CaseResult {
                 let root = stack[0].clone();
                 let r1 = s.decide(Literal::new(VarLabel::new_usize(v1), b1));
                 if matches!(r1, DecisionResult::UNSAT) {
+                    ensure!(
+                        ctx.base.and(Tt::lit(v1, b1)).is_false(),
+                        "C09/unsat-reported-but-satisfiable",
+                        "sweep: decide(x{} = {}) from the initial state reported UNSAT but CNF and decision have a model",
+                        v1,
+                        b1
+                    );
+                    st.bump("sweep_conflicts");
                     continue;
                 }
                 let rec1 = observe(&ctx, &s, vec![(v1, b1)], Some(&root))?;
@@ -233,6 +251,16 @@ pub fn run_case(case: &Case, st: &mut Stats) -> CaseResult {
                     for b2 in [false, true] {
                         let r2 = s.decide(Literal::new(VarLabel::new_usize(v2), b2));
                         if matches!(r2, DecisionResult::UNSAT) {
+                            ensure!(
+                                ctx.base.and(Tt::lit(v1, b1)).and(Tt::lit(v2, b2)).is_false(),
+                                "C09/unsat-reported-but-satisfiable",
+                                "sweep: decide(x{} = {}), decide(x{} = {}) reported UNSAT but CNF and decisions have a model",
+                                v1,
+                                b1,
+                                v2,
+                                b2
+                            );
+                            st.bump("sweep_conflicts");
                             continue;
                         }
                         let rec2 = observe(&ctx, &s, vec![(v1, b1), (v2, b2)], Some(&rec1))?;
@@ -428,7 +456,7 @@ pub fn run_case(case: &Case, st: &mut Stats) -> CaseResult {
     }
     st.add("implied_steps", implied_steps);
     st.add("pop_then_different_decision", pops_then_other);
-    st.flag("hash_inexact_skipped", !hash_exact);
+    st.flag("cnf_above_26_occurrences(hash product may wrap)", ctx.occurrences > 26);
     st.flag("has_tautological_clause", ctx.taut.iter().any(|t| *t));
     if pops_then_other >= 1 && implied_steps >= 1 {
         st.mark_nontrivial();
@@ -439,7 +467,7 @@ pub fn run_case(case: &Case, st: &mut Stats) -> CaseResult {
 impl SubCheckT for History {
     type Case = Case;
     const NAME: &'static str = "history";
-    const RULE: &'static str = "random CNF (n<=6, <=10 clauses of length 1..4 incl. duplicates, tautologies, units, occasional empty clause, contradiction cores) x <=40 decide/pop operations (pop only above the initial state; re-decisions kept). After construction and every step: is_set agrees with the model rebuilt from difference_iter; every assigned literal is entailed (truth-table brute force); UNSAT only if no model extends the decisions; otherwise no falsified clause and no unsatisfied clause with exactly one unassigned literal; is_sat iff every non-tautological clause has a true literal; pop restores model/hash/is_sat/difference; equal hashes => equal residuals (when <=26 literal occurrences keep the prime product below 2^128), over the history's states and over a systematic decide/pop sweep of all states at depth <=2; a fresh solver replaying the surviving decisions agrees. Non-trivial: a pop followed by a different decision and a step that implied a literal beyond the decided one";
+    const RULE: &'static str = "random CNF (n<=6, <=10 clauses of length 1..4 incl. duplicates, tautologies, units, occasional empty clause, contradiction cores) x <=40 decide/pop operations (pop only above the initial state; re-decisions kept). After construction and every step: is_set agrees with the model rebuilt from difference_iter; every assigned literal is entailed (truth-table brute force); UNSAT only if no model extends the decisions; otherwise no falsified clause and no unsatisfied clause with exactly one unassigned literal; is_sat iff every non-tautological clause has a true literal; pop restores model/hash/is_sat/difference; equal hashes => equal residuals (no size limit: a wrapped 128-bit product colliding would need a 127-bit coincidence), over the history's states and over a systematic decide/pop sweep of all states at depth <=2; a fresh solver replaying the surviving decisions agrees. Non-trivial: a pop followed by a different decision and a step that implied a literal beyond the decided one";
     fn cases(tier: Tier) -> u32 {
         tier.pick(5000, 200_000)
     }
@@ -470,7 +498,7 @@ pub fn property() -> Property {
         assumptions: vec![
             "CNFs over <= 6 variables, <= 10 clauses; histories of <= 40 decide/pop",
             "pop is only issued after a successful decide (the API forbids popping the initial state)",
-            "hash => residual is asserted only when the CNF has <= 26 literal occurrences, so that the product of the per-occurrence primes cannot wrap around 2^128",
+            "hash => residual is asserted for every pair of visited states; beyond 26 literal occurrences the product of per-occurrence primes can wrap around 2^128, and a collision there (probability about 2^-127 per pair) would be reported as a violation, as the property states no limit",
             "the partial model is reconstructed from difference_iter (no hook needed) and cross-checked with is_set",
         ],
         nt_floor_percent: 15,
